@@ -21,7 +21,7 @@ func (c03) Rule() string {
 }
 func (c03) Assumptions() []string {
 	return []string{
-		"wrappers can only stand in for interface-typed slots (Go typing), so *T slots do not occur here",
+		"wrappers of another type can only stand in for interface-typed slots (Go typing); pointer-typed slots are exercised with same-type substitutes (decorated copies) in a third of the cases",
 		"the statement constrains successful starts only; how often a start fails is reported (counters) but not judged",
 	}
 }
@@ -38,8 +38,21 @@ var c03Timings = []world.SubPlan{
 }
 
 func (p c03) Run(c *core.Ctx) {
-	sc := RandomGraph(c.Rng, GraphOpts{MinN: 1, MaxN: 8, Types: plainAB, PCycle: 0.9, Chords: 2, ByTypeSlice: 0.2, OnlyIface: true, PUnnamed: 0.3})
+	// two families: wrappers of another type (interface-typed slots only) and same-type decorated copies
+	// (pointer-typed slots allowed too)
+	sameType := c.Index%3 == 1
+	opts := GraphOpts{MinN: 1, MaxN: 8, Types: plainAB, PCycle: 0.9, Chords: 2, ByTypeSlice: 0.2, OnlyIface: true, PUnnamed: 0.3}
+	if sameType {
+		opts.OnlyIface = false
+		opts.Types = plainAny
+	}
+	sc := RandomGraph(c.Rng, opts)
 	g := &world.G{Rng: c.Rng, Sc: sc}
+	if c.Index%2 == 0 {
+		// service-locator lookups from inside initialization callbacks: an early reference may then be
+		// requested for the first time while the component is being initialised
+		c.Count("init_lookups", AddInitLookups(c.Rng, sc, 0.4))
+	}
 	n := len(sc.Nodes)
 	selfReq := map[int]bool{}
 	for i := 0; i < n; i++ {
@@ -66,7 +79,9 @@ func (p c03) Run(c *core.Ctx) {
 	wrappedIdx := map[int]bool{}
 	for x := 0; x < k; x++ {
 		i := c.Rng.Intn(n)
-		plan[sc.Nodes[i].DisplayName()] = c03Timings[c.Rng.Intn(len(c03Timings))]
+		pl := c03Timings[c.Rng.Intn(len(c03Timings))]
+		pl.SameType = sameType
+		plan[sc.Nodes[i].DisplayName()] = pl
 		wrappedIdx[i] = true
 	}
 	adj := sc.NamedAdj()
@@ -80,6 +95,9 @@ func (p c03) Run(c *core.Ctx) {
 		case "panic":
 			c.Fail("", fmt.Sprintf("panic escaped App.Run: %v", r.Panic), failDetail(sc, r, map[string]any{"plan": plan}))
 			return
+		case "stalled":
+			c.Fail("", "start-up hangs: "+r.OutcomeDetail(), failDetail(sc, r, map[string]any{"plan": plan}))
+			return
 		case "diverged":
 			c.Fail("", "start-up did not terminate within the step budget: "+r.Diverge.Error(), failDetail(sc, r, map[string]any{"plan": plan}))
 			return
@@ -92,7 +110,16 @@ func (p c03) Run(c *core.Ctx) {
 			where string
 		}
 		byName := map[string][]seenT{}
+		published := map[string]bool{}
+		for _, e := range r.Tracer.Events() {
+			if e.Op == "create" && e.Phase == "ret" && e.Err == "" {
+				published[e.Name] = true
+			}
+		}
 		for ni, nd := range r.Nodes {
+			if !published[sc.Nodes[ni].DisplayName()] {
+				continue // never (successfully) created: whatever a failed attempt left in its fields is not "held"
+			}
 			for _, s := range world.SortedSlots(&sc.Nodes[ni]) {
 				refs, _ := r.SlotRefs(nd, s)
 				for _, ref := range refs {
@@ -127,13 +154,22 @@ func (p c03) Run(c *core.Ctx) {
 			var err error
 			r.Guard(func() { final, err = r.App.GetComponentByName(nm) })
 			if r.Panic != nil || r.Diverge != nil || err != nil {
-				c.Fail("", fmt.Sprintf("GetComponentByName(%q) after a successful start: %v %v", nm, r.OutcomeDetail(), err), failDetail(sc, r, map[string]any{"plan": plan}))
+				class := ""
+				if r.Panic == nil && r.Diverge == nil && earlyRefOfFailedAttemptEscaped(r.Tracer.Events()) {
+					class = "F-C03-dependent-of-failed-attempt" // a holder keeps a reference of an attempt that failed and was swallowed
+				}
+				c.Fail(class, fmt.Sprintf("GetComponentByName(%q) after a successful start: %v %v", nm, r.OutcomeDetail(), err), failDetail(sc, r, map[string]any{"plan": plan}))
 				return
 			}
 			for _, s := range byName[nm] {
 				if s.obj != final {
-					c.Fail(classifyC03(sc, plan, nm, s.where), fmt.Sprintf("stale version after a successful start: %s holds %s of %q but the container publishes %s",
-						s.where, verOf(s.obj), nm, verOf(final)), failDetail(sc, r, map[string]any{"plan": plan, "component": nm, "holder_field": s.where}))
+					class := classifyC03(sc, plan, nm, s.where)
+					if class == "" && earlyRefOfFailedAttemptEscaped(r.Tracer.Events()) {
+						class = "F-C03-dependent-of-failed-attempt"
+					}
+					c.Fail(class, fmt.Sprintf("stale version after a successful start: %s holds %s of %q but the container publishes %s",
+						s.where, verOf(s.obj), nm, verOf(final)), failDetail(sc, r, map[string]any{"plan": plan, "component": nm, "holder_field": s.where,
+						"events": renderEvents(r.Log.Events(), 80), "registry_trace": renderTrace(filterTrace(r.Tracer.Events(), nm), 120)}))
 					return
 				}
 			}
@@ -170,6 +206,9 @@ func (p c03) Run(c *core.Ctx) {
 func verOf(o any) string {
 	if w, ok := o.(*world.Wrap); ok {
 		return fmt.Sprintf("wrapper v%d (%p)", w.Version, w)
+	}
+	if n, ok := o.(world.Node); ok && n.Core().Log == nil {
+		return fmt.Sprintf("a same-type substitute (%p)", o)
 	}
 	return fmt.Sprintf("the raw instance (%p)", o)
 }
@@ -210,4 +249,14 @@ func classifyC03(sc *world.Scenario, plan map[string]world.SubPlan, component, w
 		return "F-C03-self-early-proxy"
 	}
 	return ""
+}
+
+func filterTrace(ev []mon.TraceEv, name string) []mon.TraceEv {
+	var out []mon.TraceEv
+	for _, e := range ev {
+		if e.Op != "increation" {
+			out = append(out, e)
+		}
+	}
+	return out
 }
